@@ -21,6 +21,13 @@ type Frame struct {
 	ZeroNamed map[string]bool    // Names entry comes from a zero-constant DebugRef
 	Loops  map[*ssa.BasicBlock]*loopRec
 	Parent *Frame
+	Defers []deferredCall // deferred static calls, in the order of the defer statements
+}
+
+type deferredCall struct {
+	Fn   *ssa.Function
+	Args []Val
+	Pos  string
 }
 
 type loopRec struct {
@@ -47,6 +54,7 @@ func (f *Frame) clone() *Frame {
 	for k, v := range f.Loops {
 		n.Loops[k] = v
 	}
+	n.Defers = append([]deferredCall(nil), f.Defers...)
 	if f.ZeroNamed != nil {
 		n.ZeroNamed = map[string]bool{}
 		for k, v := range f.ZeroNamed {
@@ -343,6 +351,11 @@ func (ex *Exec) heapKey(root types.Type, names string, suffix string) string {
 
 // heapArr returns the current array term of a heap key (declaring the entry array lazily).
 func (ex *Exec) heapArr(st *State, key, valSort string) string {
+	if ex.readTrack != nil && ex.mute == 0 {
+		ex.mu.Lock()
+		ex.readTrack[key] = true
+		ex.mu.Unlock()
+	}
 	if t, ok := st.Heap[key]; ok {
 		return t
 	}
@@ -476,7 +489,7 @@ func (ex *Exec) writeLeaf(st *State, root types.Type, ref string, names string, 
 		if mv.Obj == nil {
 			mc = MapContent{Val: ex.constMap(ks, vs), Dom: "((as const (Array " + ks + " Bool)) false)"}
 		} else {
-			mc = st.Mem[mv.Obj].(MapContent)
+			mc = ex.mapContentOf(st, mv)
 		}
 		set(ex.heapKey(root, names, "#mval"), "(Array "+ks+" "+vs+")", mc.Val)
 		set(ex.heapKey(root, names, "#mdom"), "(Array "+ks+" Bool)", mc.Dom)
@@ -848,4 +861,21 @@ func (ex *Exec) allocOf(st *State) string {
 	}
 	st.Ghost["alloc"] = a
 	return a
+}
+
+// mapContentOf: the content of a map object in a state. A map object that the state has no
+// content for (the entry value of a package-level map that is not among the dumped tables,
+// first met in another state) gets an arbitrary content, the same in every state.
+func (ex *Exec) mapContentOf(st *State, m Map) MapContent {
+	if c, ok := st.Mem[m.Obj].(MapContent); ok {
+		return c
+	}
+	ks, vs := mustSort(m.K), mustSort(m.V)
+	id := fmt.Sprintf("mapinit_%d", m.Obj.ID)
+	mc := MapContent{
+		Val: ex.Ctx.Declare(id+"_val", nil, "(Array "+ks+" "+vs+")"),
+		Dom: ex.Ctx.Declare(id+"_dom", nil, "(Array "+ks+" Bool)"),
+	}
+	st.Mem[m.Obj] = mc
+	return mc
 }
